@@ -168,6 +168,16 @@ example : Sim (fun s' t' => Step Ex.sPending Hash.Ex.tPending s' t')
     (erase Hash.Ex.hf0 3 Ex.sPending 10) (Hash.erase Hash.Ex.hf0 Hash.Ex.tPending 1 10) :=
   erase_refines Hash.Ex.hf0 Ex.sPending_rep (by simp [nodes, Hash.Ex.tPending]) 10
 
+example : Sim (fun s' t' => Inserted Ex.sPending Hash.Ex.tPending 7 13 s' t')
+    (insert Hash.Ex.hf0 3 Ex.sPending 7 13) (Hash.insert Hash.Ex.hf0 Hash.Ex.tPending 7 13) :=
+  insert_refines Hash.Ex.hf0 Ex.sPending_rep (by simp [nodes, Hash.Ex.tPending]) 7 13 (by decide)
+    (by rw [owns_iff]; simp [nodes, Hash.Ex.tPending])
+
+/-- a further resize while the first one is pending (forces the rehash: every chain is relinked) -/
+example : Sim (fun s' t' => Step Ex.sPending Hash.Ex.tPending s' t')
+    (resize Hash.Ex.hf0 3 Hash.Ex.yes Ex.sPending 3 none) (Hash.resize Hash.Ex.hf0 Hash.Ex.yes Hash.Ex.tPending 3 none) :=
+  resize_refines Hash.Ex.hf0 Ex.sPending_rep (by simp [nodes, Hash.Ex.tPending]) Hash.Ex.yes 3 none
+
 /-! ## C03 — histories -/
 
 /-- **History theorem**: along every history of insert / find / erase / resize /
@@ -312,6 +322,29 @@ example : (lkstep Hash.Ex.hf0 4 Ex.sPending (.insert 7 13)).val = .error (.stop 
   keyed_link_cost_and_progress Hash.Ex.hf0 Ex.sPending_rep Hash.Ex.tPending_inv rfl (by simp [nodes, Hash.Ex.tPending])
     (.insert 7 13) (by simp [Hash.KValid, nodes, Hash.Ex.tPending])
     ⟨by decide, by rw [owns_iff]; simp [nodes, Hash.Ex.tPending]⟩ rfl
+
+/-- **the rehash finishes at link level**: any sequence of at least `count`
+keyed operations of the pointer code (inserts, finds, erases, in any mix)
+issued while a rehash is pending leaves the header settled on the pending
+geometry (or stops with `abort` because `hf` left its range) -/
+theorem rehash_finishes_link (ops : List KOp) {s : LS} {t : HT} (r : Rep s t) (inv : Hash.Inv hf t) (hr : t.hash.isSome)
+    {fuel : Nat} (hfuel : (nodes t).length + ops.length ≤ fuel) (hv : Hash.KValidFrom hf t ops)
+    (hlv : LKValidFrom hf fuel s t ops) (hp : t.rhHash.isSome) (hlen : t.count ≤ ops.length) :
+    (lkrun hf fuel s ops).val = .error (.stop .abort) ∨
+    ∃ s', (lkrun hf fuel s ops).val = .ok s' ∧ s'.t.rhHash = none ∧ s'.t.count = s.t.rhCount ∧
+      s'.t.hash = s.t.rhHash := by
+  rcases (lkrun_sim hf fuel ops s t r hfuel hlv).transfer (Hash.rehash_finishes hf ops inv hr hv hp hlen) with
+    h | ⟨x, b, hx, _, r', _, h1, h2, h3⟩
+  · exact Or.inl h.1
+  · exact Or.inr ⟨x, hx, by rw [r'.rhHash]; exact h1, by rw [r'.count, r.rhCount]; exact h2,
+      by rw [r'.hash, r.rhHash]; exact h3⟩
+
+example : (lkrun Hash.Ex.hf0 5 Ex.sPending [.find 1 none, .find 9 none]).val = .error (.stop .abort) ∨
+    ∃ s', (lkrun Hash.Ex.hf0 5 Ex.sPending [.find 1 none, .find 9 none]).val = .ok s' ∧ s'.t.rhHash = none ∧
+      s'.t.count = Ex.sPending.t.rhCount ∧ s'.t.hash = Ex.sPending.t.rhHash :=
+  rehash_finishes_link Hash.Ex.hf0 _ Ex.sPending_rep Hash.Ex.tPending_inv rfl (by simp [nodes, Hash.Ex.tPending])
+    ⟨trivial, fun _ _ => ⟨trivial, fun _ _ => trivial⟩⟩ ⟨trivial, fun _ _ _ _ => ⟨trivial, fun _ _ _ _ => trivial⟩⟩ rfl
+    (by simp [Hash.Ex.tPending])
 
 /-- the trace of a link-level history is the trace of the existing model's
 run: every statement about hash calls, relocated buckets and allocation
